@@ -298,14 +298,22 @@ class Effects:
         if not env:
             return None
         parent, ops, pos, clo_local = env
+        def payload_source(recv):
+            # the success payload of x.filter(p) / x.ok() / x.ok_or(e) / x.map_err(f) is the success payload of x
+            recv = deep_strip(recv)
+            while recv[0] == 'call' and recv[2] and canon(recv[1]).split("::")[-2:] in (["Option", "filter"], ["Result", "ok"], ["Option", "ok_or"], ["Option", "ok_or_else"], ["Result", "map_err"]):
+                recv = deep_strip(recv[2][0])
+            return recv
         for c in parent.calls():
             cn = canon(c.target or "")
-            if cn.split("::")[-1] in ("map", "and_then", "map_or", "map_or_else") and ("Result::" in cn or "Option::" in cn):
+            if cn.split("::")[-1] in ("map", "and_then", "map_or", "map_or_else", "filter") and ("Result::" in cn or "Option::" in cn):
                 for i, a in enumerate(c.t["args"]):
                     if a["k"] in ("move", "copy") and a["pl"]["l"] == clo_local and "p" not in a["pl"] and i >= 1:
-                        recv = c.arg(0)
+                        recv = payload_source(c.arg(0))
                         if param_idx == 2:
-                            return parent, ('ok', deep_strip(recv))
+                            if cn.split("::")[-1] == "filter":
+                                return parent, ('ref', ('ok', recv))      # the predicate receives a reference to the payload
+                            return parent, ('ok', recv)
             if cn.split("::")[-1] in ("map_err", "or_else", "unwrap_or_else") and "Result::" in cn:
                 for i, a in enumerate(c.t["args"]):
                     if a["k"] in ("move", "copy") and a["pl"]["l"] == clo_local and "p" not in a["pl"] and i >= 1:
@@ -350,6 +358,14 @@ class Effects:
                 return map_children(x, untag)
             return x
         lt = untag(lt)
+
+        def norm(x):
+            if isinstance(x, tuple) and x and x[0] not in LEAF_TAGS:
+                x = map_children(x, norm)
+                if x[0] == 'deref' and isinstance(x[1], tuple) and x[1] and x[1][0] == 'ref':
+                    return x[1][1]
+            return x
+        lt = norm(lt)
         return self.in_parent(pb, lt, depth + 1, tag_own) if pb.kind == "Closure" else (pb, lt)
 
 
